@@ -1,3 +1,4 @@
+import SamlModel.Lemmas.Builders
 import SamlModel.Model.Callback
 import SamlModel.Model.FactsUtil
 set_option linter.unusedSimpArgs false
@@ -72,26 +73,26 @@ theorem C03_fields (o : Ora) (i : In) (d : Delivery) (m : Msg) (s : Sig) (h : ca
   split at h
   · simp at h
   split at h
-  · simp [failedMsg, makeResponse] at h; obtain ⟨_, hm, _⟩ := h; subst hm; simp [statusSuccess, statusRequestDenied] at hs
+  · simp [failedMsg, mkResponse] at h; obtain ⟨_, hm, _⟩ := h; subst hm; simp [statusSuccess, statusRequestDenied] at hs
   rename_i rec hrec
   split at h
   · simp at h
   rename_i aud hent
   dsimp only at h
   split at h
-  · simp [failedMsg, makeResponse] at h; obtain ⟨_, hm, _⟩ := h; subst hm; simp [statusSuccess, statusAuthnFailed] at hs
+  · simp [failedMsg, mkResponse] at h; obtain ⟨_, hm, _⟩ := h; subst hm; simp [statusSuccess, statusAuthnFailed] at hs
   split at h
-  · simp [failedMsg, makeResponse] at h; obtain ⟨_, hm, _⟩ := h; subst hm; simp [statusSuccess, statusInvalidAttr] at hs
+  · simp [failedMsg, mkResponse] at h; obtain ⟨_, hm, _⟩ := h; subst hm; simp [statusSuccess, statusInvalidAttr] at hs
   rename_i attrs hui
   split at h
   · simp at h
   split at h
-  · simp [failedMsg, makeResponse] at h; obtain ⟨_, hm, _⟩ := h; subst hm; simp [statusSuccess, statusInvalidAttr] at hs
+  · simp [failedMsg, mkResponse] at h; obtain ⟨_, hm, _⟩ := h; subst hm; simp [statusSuccess, statusInvalidAttr] at hs
   rw [getSAML_eq, getNameID_eq] at h
   simp only at h
   split at h
-  · simp [makeResponse] at h; obtain ⟨_, hm, _⟩ := h; subst hm; simp [statusSuccess, statusResponder] at hs
-  · simp [makeResponse, makeAssertion] at h
+  · simp [mkResponse] at h; obtain ⟨_, hm, _⟩ := h; subst hm; simp [statusSuccess, statusResponder] at hs
+  · simp [mkResponse, mkAssertion] at h
     obtain ⟨hd, hm, _⟩ := h
     subst hm hd
     exact ⟨rec, aud, attrs, _, hrec, hent, hui, rfl, rfl, rfl, rfl, rfl, rfl, rfl, rfl, rfl, rfl, rfl, rfl, rfl, rfl, rfl, rfl, rfl, rfl, rfl, rfl⟩
@@ -146,9 +147,22 @@ theorem C03_window (format : Int → String) (parse : String → Int) (g exp now
 theorem C03_ids (i : In) (hinj : ∀ a b, i.ids a = i.ids b → a = b) : i.ids 0 ≠ i.ids 1 := by
   intro h; exact absurd (hinj 0 1 h) (by decide)
 
+/-- **the builders are the generated ones**: `makeResponse` and `makeAssertion` as regenerated from response.go on
+    this run never panic and construct exactly the records the callback model works with (`Builders.msgOf`,
+    `Builders.assertionOf` are the projections); version "2.0"; the assertion's identifier is the one `NewID()`
+    returned at its call site -/
+theorem C03_builders_refine (o : Ora) (id reqID acs ii untl status msg issuer aud : String) (nameID : Option saml_NameIDType)
+    (attrs : List (Option saml_AttributeType)) :
+    (∃ r, Gen.makeResponse o id reqID acs ii status msg issuer = .ok (some r) ∧
+        Builders.msgOf r none = Callback.mkResponse id reqID acs ii status msg issuer ∧ r.Version = "2.0") ∧
+    (∃ a, Gen.makeAssertion o reqID acs "" ii untl issuer nameID attrs aud true = .ok (some a) ∧
+        Builders.assertionOf a = some (Callback.mkAssertion (o.newID "makeAssertion" 0) reqID acs ii untl issuer nameID attrs aud) ∧
+        a.Version = "2.0") :=
+  ⟨Builders.makeResponse_refines o id reqID acs ii status msg issuer, Builders.makeAssertion_refines o reqID acs ii untl issuer nameID attrs aud⟩
+
 theorem C03_source_current : Consts.current = true ∧
     FactsUtil.sameHashes ["provider.IdentityProvider.callbackHandleFunc", "provider.IdentityProvider.loginResponse",
-      "provider.Response.makeSuccessfulResponse", "provider.Response.makeAssertionResponse", "provider.makeAssertion",
-      "provider.makeResponse", "provider.getIssuer", "provider.NewID", "provider.Response.sendBackResponse"] = true := ⟨by decide, by decide⟩
+      "provider.Response.makeSuccessfulResponse", "provider.Response.makeAssertionResponse",
+      "provider.NewID", "provider.Response.sendBackResponse"] = true := ⟨by decide, by decide⟩
 
 end C03
